@@ -111,46 +111,31 @@ def lib_proofs(ns):
     P = {}
     P['normalize'] = f'''
   funext p; unfold Sm9.Gen.{ns}.normalize Api.normalize; cases p.to_affine <;> rfl'''
+    # decoders: a decision-tree equality; `grind` first (insensitive to how the source spells its tests:
+    # `64 != len`, nested vs. combined conditions, order of independent checks), the explicit case split second
     P['from_slice'] = f'''
   funext bs
   unfold Sm9.Gen.{ns}.from_slice Sm9.Api.{g}FromSlice
-  simp only [liftNew_eq]
-  by_cases h : bs.length = {2*el}
-  · simp only [h, decide_true, Bool.not_true, Bool.false_eq_true, if_false, ne_eq, not_true_eq_false]
-    cases {fromS} (bs.take {el}) <;> cases {fromS} (bs.drop {el}) <;> rfl
-  · simp [h]'''
+  simp only [liftNew_eq, getD0]
+  first
+  | grind
+  | (by_cases h : bs.length = {2*el}
+     · simp only [h, decide_true, Bool.not_true, Bool.false_eq_true, if_false, ne_eq, not_true_eq_false]
+       cases {fromS} (bs.take {el}) <;> cases {fromS} (bs.drop {el}) <;> rfl
+     · simp [h])'''
     P['from_uncompressed'] = f'''
   funext bs
   unfold Sm9.Gen.{ns}.from_uncompressed Sm9.Api.{g}FromUncompressed
-  cases bs with
-  | nil => rfl
-  | cons b t =>
-    by_cases hb : b = 4
-    · subst hb; by_cases h : t.length + 1 = {2*el+1} <;> simp [h]
-    · have h4 : b.toNat ≠ 4 := u8_ne_toNat b 4 hb
-      simp [hb, h4]'''
+  simp only [getD0]
+  by_cases h : bs.length = {2*el+1}
+  · have := head_ne_iff bs 4 (by omega)
+    grind
+  · grind'''
     P['from_compressed'] = f'''
   funext bs
   unfold Sm9.Gen.{ns}.from_compressed Sm9.Api.{g}FromCompressed
-  simp only [liftNew_eq, and_one_eq]
-  by_cases h : bs.length = {el+1}
-  · simp only [h, decide_true, Bool.not_true, Bool.false_eq_true, if_false, ne_eq, not_true_eq_false]
-    have e0 : (bs.getD 0 0) = bs.headD 0 := by cases bs <;> rfl
-    rw [e0]
-    generalize (bs.headD 0).toNat = sign
-    by_cases hs : sign ≠ 2 ∧ sign ≠ 3
-    · simp [hs.1, hs.2]
-    · have hs' : ¬(((!decide (sign = 2)) && (!decide (sign = 3))) = true) := by simpa using hs
-      simp only [hs, hs', if_false]
-      cases {fromS} (bs.drop 1) with
-      | none => rfl
-      | some x =>
-        simp only []
-        cases (x * x * x + {B}).sqrt with
-        | none => rfl
-        | some y =>
-          cases (sign % 2 == 0) <;> cases {even} <;> rfl
-  · simp [h]'''
+  simp only [liftNew_eq, and_one_eq, getD0]
+  grind'''
     P['to_slice'] = f'''
   funext p
   unfold Sm9.Gen.{ns}.to_slice Sm9.Api.{g}ToSlice
@@ -232,7 +217,9 @@ def main(gen_dir, exclude=()):
             L.append(f'theorem {nm} (s : G2Prepared) : @Sm9.Gen.{ns}.{fnl} s = {m} := by equiv_rfl')
             names.append(nm)
             continue
-        if ns in ('Fq2', 'Fq4', 'Fq12') and not fn.startswith('final_'):
+        if ns in ('G1', 'G2'):
+            default = f'g_tac Sm9.Gen.{ns}.{fnl} Sm9.G.{fn}'
+        elif ns in ('Fq2', 'Fq4', 'Fq12') and not fn.startswith('final_'):
             default = f'equiv_tac Sm9.Gen.{ns}.{fnl} Sm9.{ns}.{fn}'
         else:
             default = 'equiv_rfl'
